@@ -5,11 +5,13 @@
    ends, each element exactly once, None forever after, len = what is left, a
    clone continuing independently. Ranges go through translate_range_bounds,
    advance_front_by, advance_back_by and slice_take without a bounds panic.
+   (&buf).into_iter() is buf.iter(); Iter::default() and IterMut::default()
+   are iterators over the empty window (None forever, len 0, nothing written).
    This file only pins statements; proofs are in coq/proofs/. *)
 From CB Require Import Spec Unstable.
 From Coq Require Import Permutation.
 From CBP Require Import Step RefDefs C02Lemmas Arith AbsLemmas AllOps FaultDefs FaultPrims FaultDropA FaultDropB FaultUser
-     Iters DrainP ExtendIo CmpHash Ctors PhysMoves UnstableEq Access Views RefTruncate FillExtend FaultFrame SpecCorollaries.
+     Iters DrainP ExtendIo CmpHash Ctors PhysMoves MoreOps UnstableEq Access Views RefTruncate FillExtend FaultFrame SpecCorollaries.
 
 
 Theorem C08_iter :
@@ -36,6 +38,21 @@ Theorem C08_into_iter :
   forall script, refines_op (OIntoIter script).
 Proof. exact (fun script => exec_refines (OIntoIter script)). Qed.
 Print Assumptions C08_into_iter.
+
+Theorem C08_iter_default :
+  forall script, refines_op (OIterDefault script).
+Proof. exact (fun script => exec_refines (OIterDefault script)). Qed.
+Print Assumptions C08_iter_default.
+
+Theorem C08_iter_mut_default :
+  forall script, refines_op (OIterMutDefault script).
+Proof. exact (fun script => exec_refines (OIterMutDefault script)). Qed.
+Print Assumptions C08_iter_mut_default.
+
+Theorem C08_ref_into_iter :
+  forall script, refines_op (ORefIntoIter script).
+Proof. exact (fun script => exec_refines (ORefIntoIter script)). Qed.
+Print Assumptions C08_ref_into_iter.
 
 Theorem C08_protocol :
   forall l lo hi sc rs l' lo' hi',
